@@ -1,6 +1,6 @@
 (* Extraction of the executable model, projections and monitors.
    ExtrOcamlBasic only; nat, N, Z, positive stay the extracted inductive types. *)
 From Coq Require Import Extraction ExtrOcamlBasic.
-From Verif Require Import Sx Monitors.
+From Verif Require Import Sx Dispatch.
 Extraction Language OCaml.
 Extraction "extracted.ml" run proj spec.
